@@ -275,6 +275,8 @@ class World:
             asyncio.events._set_running_loop(self.loop)
             try:
                 self.ch.close()
+            except Exception as e:      # close() is documented not to fail: what it raises is a finding, not a harness error
+                self.problems.append(("close-raised", "close() raised %r" % (e,)))
             finally:
                 asyncio.events._set_running_loop(None)
         self.run_fifo()
